@@ -38,14 +38,22 @@ void disarm()
     g_armed = false;
     g_ops = nullptr;
 }
-static inline void note(uint64_t constant, uint64_t observed, int width)
+static inline void note(uint64_t constant, uint64_t observed, int width, bool variable = false)
 {
-    if (!g_armed || constant == observed || g_ops->size() >= 96)
+    if (!g_armed || constant == observed || g_ops->size() >= (variable ? 64u : 128u))
         return;
     for (auto& o : *g_ops)
         if (o.constant == constant && o.observed == observed && o.width == width)
             return;
-    g_ops->push_back(Operand{constant, observed, width});
+    g_ops->push_back(Operand{constant, observed, width, variable});
+}
+// two variables compared: either may be the one that came from the input - the other is then the value to put there
+static inline void noteBoth(uint64_t a, uint64_t b, int width)
+{
+    if (!g_armed || a == b || (a < 16 && b < 16))
+        return;  // (small against small: loop counters, enumerators)
+    note(b, a, width, true);
+    note(a, b, width, true);
 }
 }  // namespace cmpfb
 }  // namespace sim
@@ -57,10 +65,10 @@ extern "C"
     void __sanitizer_cov_trace_const_cmp2(uint16_t c, uint16_t v) { sim::cmpfb::note(c, v, 2); }
     void __sanitizer_cov_trace_const_cmp4(uint32_t c, uint32_t v) { sim::cmpfb::note(c, v, 4); }
     void __sanitizer_cov_trace_const_cmp8(uint64_t c, uint64_t v) { sim::cmpfb::note(c, v, 8); }
-    void __sanitizer_cov_trace_cmp1(uint8_t, uint8_t) {}
-    void __sanitizer_cov_trace_cmp2(uint16_t, uint16_t) {}
-    void __sanitizer_cov_trace_cmp4(uint32_t, uint32_t) {}
-    void __sanitizer_cov_trace_cmp8(uint64_t, uint64_t) {}
+    void __sanitizer_cov_trace_cmp1(uint8_t a, uint8_t b) { sim::cmpfb::noteBoth(a, b, 1); }
+    void __sanitizer_cov_trace_cmp2(uint16_t a, uint16_t b) { sim::cmpfb::noteBoth(a, b, 2); }
+    void __sanitizer_cov_trace_cmp4(uint32_t a, uint32_t b) { sim::cmpfb::noteBoth(a, b, 4); }
+    void __sanitizer_cov_trace_cmp8(uint64_t a, uint64_t b) { sim::cmpfb::noteBoth(a, b, 8); }
     void __sanitizer_cov_trace_div4(uint32_t) {}
     void __sanitizer_cov_trace_div8(uint64_t) {}
     void __sanitizer_cov_trace_gep(uintptr_t) {}
